@@ -9,7 +9,20 @@ PROPS = {
                              "float round trips are judged within 1e-6 + 1e-9*x (the formatter prints six decimals)"]),
 }
 
+PROPS["C18"] = dict(pkg="c18", shards=16, level="exploration",
+    technique="property-based testing (rapid) + exhaustive enumeration of the small signature matrix; handlers synthesised with reflect.MakeFunc; oracle = acceptance predicate written from the doc comment and scripted handler results",
+    level_text="Exploration: the (handler signature x declaration) matrix is enumerated for <=1 parameter over the full type pools and for <=2 parameters over reduced pools (exhaustive for those sub-spaces), 3-parameter pairs and near-miss declarations are sampled; every accepted function is called with 0..4 arguments and scripted results.",
+    level_note="Handlers are function values (non-function handlers are outside the stated matrix); call arguments are non-nil values of the declared types; for dynamic functions a first result of a non-empty interface type is counted as unspecified.",
+    assumptions=["'error' in the doc comment means the predeclared interface type", "call arguments are non-nil values of the declared native types"])
+
 # properties deliberately not claimed, with the reason (empty: all are meant to be claimed)
 NOT_APPLICABLE = {}
 # commits in /repo that add build-tag-guarded hooks (none: instrumentation is generated at check time)
 HOOK_COMMITS = []
+
+PROPS["C19"] = dict(pkg="c19", shards=16, level="exploration",
+    extra_builds={"codegen": {"cmd": ["go", "build"], "cwd": "/repo/cmd/arcaflow-codegen", "env": {"GOFLAGS": "-mod=readonly"}}},
+    technique="property-based testing (rapid) over generated schema YAML documents; the generator is built from the working tree and run as a subprocess 10x per document; oracle = structural check of the parsed output (go/parser, gofmt fixed point) + byte-identity across runs",
+    level_text="Exploration: generated documents (0-8 objects x 0-8 properties, all type IDs, refs, both argument forms) each run 10 times in a fresh process; output parsed and compared structurally with the document, runs compared byte for byte.",
+    level_note="Documents are well-formed schema files: names are Go identifiers that are not keywords, every property has a type mapping, refs carry an id; struct/field names are only compared case-insensitively for ASCII names (title-casing rules are not re-implemented); type_id=map is a recorded known finding and is generated in a separate counted class.",
+    assumptions=["10 identical runs make an undetected 2-way map-order coin flip < 0.2%; documents with >=3 keys make it negligible"])
